@@ -1607,6 +1607,15 @@ func (g *groupConsumer) handleJoinResp(resp *kmsg.JoinGroupResponse) (restart bo
 			return true, "", nil, nil
 		case kerr.UnknownMemberID:
 			g.memberGen.storeMember("")
+			// A cooperative member keeps consuming what it owns
+			// through a rebalance. If the group no longer knows
+			// us, those partitions may already be assigned to
+			// another member: fail the session so that manage
+			// calls onLost and invalidates everything before we
+			// rejoin, rather than rejoining claiming them.
+			if g.cooperative.Load() && len(g.nowAssigned.read()) > 0 {
+				return false, "", nil, err
+			}
 			g.cfg.logger.Log(LogLevelInfo, "join returned UnknownMemberID, rejoining without a member id", "group", g.cfg.group)
 			return true, "", nil, nil
 		}
